@@ -38,6 +38,13 @@ def _core_docs():
                   [Note('2', pitch='FF'), Null('.'), Rest('2')], [Op(T), Op(T), Op(T)]]))
     D.append(Doc([[H('**kern')], [Note('4', pitch='b')], [Note('4', pitch='e')], [Note('4', pitch='a')], [Note('4', pitch='d')], [Note('4', pitch='g')],
                   [Note('4', pitch='c')], [Note('4', pitch='f')], [Op(T)]]))
+    # every clef sign the grammar knows (percussion and tablature clefs included), changing along the spine: the letters of a **kern
+    # note are pitches whatever clef they are drawn under
+    D.append(Doc([[H('**kern'), H('**kern')], [sig('*clefP', 'CLEF'), sig('*clefT', 'CLEF')], [Bar(number='1'), Bar(number='1')],
+                  [Note('4', pitch='c'), Note('4', pitch='E')], [Note('8', pitch='f', decs=((3, 'L'),)), Note('8', pitch='GG')],
+                  [sig('*clefC3', 'CLEF'), sig('*clefP', 'CLEF')], [Note('4', pitch='a'), Note('4', pitch='dd')],
+                  [Op('*^'), Null('*')], [Note('4', pitch='b'), Note('4', pitch='D'), Note('2', pitch='g')], [Op('*v'), Op('*v'), Null('*')],
+                  [sig('*clefG2', 'CLEF'), Null('*')], [Note('2', pitch='e'), Note('2', pitch='cc')], [Op(T), Op(T)]]))
     return D
 
 
